@@ -783,4 +783,205 @@ Section TallyQ.
         all: try (symmetry; apply Q.min_l; lra).
     Qed.
   End Getters.
+
+  (* ====================================================================== *)
+  (* Statements over arbitrary histories                                     *)
+  (* ====================================================================== *)
+  Definition no_raise {A} (g : res A) : Prop := forall k, g <> Raise k.
+
+  Lemma res_is_no_raise : forall g v, res_is g v -> no_raise g.
+  Proof. intros g v [r [-> _]] k. discriminate. Qed.
+
+  Lemma nan_no_raise : forall A (g : res A), g = NaNres -> no_raise g.
+  Proof. intros A g -> k. discriminate. Qed.
+
+  Lemma res_is_not_nan : forall g v, res_is g v -> g <> NaNres.
+  Proof. intros g v [r [-> _]]. discriminate. Qed.
+
+  Theorem history_ok : forall ops, acc_ok (effective [] ops) (trun NQ (tinit NQ) ops).
+  Proof. intros. rewrite run_effective. apply tally_moments. Qed.
+
+  Lemma popvar_zero_or_pos : forall xs s, acc_ok xs s -> {popvar xs == 0} + {0 < popvar xs}.
+  Proof.
+    intros xs s OK. destruct (Qlt_le_dec 0 (popvar xs)) as [P | P]; [right; exact P | left].
+    pose proof (popvar_nonneg xs s OK). lra.
+  Qed.
+
+  Lemma popvar_zero_iff_all_equal : forall xs, xs <> [] ->
+    (popvar xs == 0 <-> Forall (fun x => x == mean xs) xs).
+  Proof.
+    intros xs NE. rewrite <- csum2_zero_iff. unfold popvar, central.
+    pose proof (nQ_pos xs NE). split; intros H0.
+    - assert (E : csum 2 (mean xs) xs == (csum 2 (mean xs) xs / nQ xs) * nQ xs) by (field; lra).
+      rewrite E, H0. ring.
+    - rewrite H0. field. lra.
+  Qed.
+
+  Section History.
+    Variable icdf : Q -> res Q.
+    Hypothesis icdf_total : forall p, 0 < p -> p < 1 -> exists z, icdf p = Val z.
+    Variable ops : list (top NQ).
+    Let xs := effective [] ops.
+    Let s := trun NQ (tinit NQ) ops.
+    Let OK : acc_ok xs s := history_ok ops.
+
+    (* every getter equals its documented formula on the effective observations *)
+    Theorem getters_equal_definitions :
+      ((1 <= length xs)%nat ->
+         res_is (g_mean NQ s) (mean xs) /\
+         res_is (g_variance NQ true s) (popvar xs) /\
+         res_is (g_stdev NQ true s) (sq (popvar xs))) /\
+      ((2 <= length xs)%nat ->
+         res_is (g_variance NQ false s) (samvar xs) /\
+         res_is (g_stdev NQ false s) (sq (samvar xs))) /\
+      ((2 <= length xs)%nat -> 0 < popvar xs ->
+         res_is (g_skewness NQ true s) (skew_b xs)) /\
+      ((3 <= length xs)%nat -> 0 < popvar xs ->
+         res_is (g_skewness NQ false s) (skew_u xs) /\
+         res_is (g_kurtosis NQ true s) (kurt_b xs) /\
+         res_is (g_excess_kurtosis NQ true s) (exkurt_b xs)) /\
+      ((4 <= length xs)%nat -> 0 < popvar xs ->
+         res_is (g_kurtosis NQ false s) (kurt_u xs) /\
+         res_is (g_excess_kurtosis NQ false s) (exkurt_u xs)).
+    Proof.
+      repeat split; intros.
+      - apply (mean_spec xs s OK). intros E. rewrite E in H. cbn in H. lia.
+      - apply (variance_b_spec xs s OK). intros E. rewrite E in H. cbn in H. lia.
+      - apply (stdev_b_spec xs s OK). intros E. rewrite E in H. cbn in H. lia.
+      - apply (variance_u_spec xs s OK). assumption.
+      - apply (stdev_u_spec xs s OK). assumption.
+      - apply (skewness_b_defined xs s OK); assumption.
+      - apply (skewness_u_defined xs s OK); assumption.
+      - apply (kurtosis_b_defined xs s OK); assumption.
+      - apply (excess_kurtosis_b_defined xs s OK); assumption.
+      - apply (kurtosis_u_defined xs s OK); assumption.
+      - apply (excess_kurtosis_u_defined xs s OK); assumption.
+    Qed.
+
+    Theorem confidence_interval_definition : forall a : Q, 0 <= a -> a <= 1 -> (2 <= length xs)%nat ->
+      exists mn mx, tmin s = XFin mn /\ tmax s = XFin mx /\ is_min mn xs /\ is_max mx xs /\
+        (a == 0 -> g_confidence_interval NQ icdf s (@ANum NQ a) = Val (XFin mn, XFin mx)) /\
+        (0 < a -> exists z lo hi,
+           icdf (1 - a / 2) = Val z /\
+           g_confidence_interval NQ icdf s (@ANum NQ a) = Val (XFin lo, XFin hi) /\
+           lo == Qmax mn (mean xs - ci_half xs z) /\ hi == Qmin mx (mean xs + ci_half xs z)).
+    Proof. intros. apply (ci_defined xs s OK icdf icdf_total); assumption. Qed.
+
+    Lemma nan_iff : forall (g : res Q) v (P : Prop),
+      (P -> g = NaNres) -> (~ P -> res_is g v) -> {P} + {~ P} -> (g = NaNres <-> P).
+    Proof.
+      intros g v P A B [D | D]; split; intros H; auto.
+      exfalso. apply (res_is_not_nan g v (B D)). exact H.
+    Qed.
+
+    Let too_few_or_flat (k : nat) : Prop := (length xs < k)%nat \/ popvar xs == 0.
+
+    Lemma tff_dec : forall k, {too_few_or_flat k} + {~ too_few_or_flat k}.
+    Proof.
+      intros k. unfold too_few_or_flat.
+      destruct (lt_dec (length xs) k) as [L | L]; [left; left; exact L |].
+      destruct (popvar_zero_or_pos xs s OK) as [Z | P]; [left; right; exact Z |].
+      right. intros [H | H]; [contradiction | lra].
+    Qed.
+
+    Lemma tff_not : forall k, ~ too_few_or_flat k -> (k <= length xs)%nat /\ 0 < popvar xs.
+    Proof.
+      intros k H. unfold too_few_or_flat in H. split; [lia |].
+      destruct (popvar_zero_or_pos xs s OK) as [Z | P]; [tauto | exact P].
+    Qed.
+
+    (* NaN exactly when the statistic is undefined *)
+    Theorem nan_structure :
+      (g_mean NQ s = NaNres <-> xs = []) /\
+      (g_variance NQ true s = NaNres <-> xs = []) /\
+      (g_stdev NQ true s = NaNres <-> xs = []) /\
+      (g_variance NQ false s = NaNres <-> (length xs < 2)%nat) /\
+      (g_stdev NQ false s = NaNres <-> (length xs < 2)%nat) /\
+      (g_skewness NQ true s = NaNres <-> (length xs < 2)%nat \/ popvar xs == 0) /\
+      (g_skewness NQ false s = NaNres <-> (length xs < 3)%nat \/ popvar xs == 0) /\
+      (g_kurtosis NQ true s = NaNres <-> (length xs < 3)%nat \/ popvar xs == 0) /\
+      (g_excess_kurtosis NQ true s = NaNres <-> (length xs < 3)%nat \/ popvar xs == 0) /\
+      (g_kurtosis NQ false s = NaNres <-> (length xs < 4)%nat \/ popvar xs == 0) /\
+      (g_excess_kurtosis NQ false s = NaNres <-> (length xs < 4)%nat \/ popvar xs == 0) /\
+      (forall a : Q, 0 <= a -> a <= 1 ->
+         (g_confidence_interval NQ icdf s (@ANum NQ a) = NaNres <-> (length xs < 2)%nat)).
+    Proof.
+      assert (Dnil : {xs = []} + {xs <> []}) by (destruct xs; [left; reflexivity | right; discriminate]).
+      assert (D2 : {(length xs < 2)%nat} + {~ (length xs < 2)%nat}) by apply lt_dec.
+      repeat split.
+      1-2: eapply nan_iff; [apply (mean_spec xs s OK) | apply (mean_spec xs s OK) | exact Dnil]; assumption.
+      1-2: eapply nan_iff; [apply (variance_b_spec xs s OK) | apply (variance_b_spec xs s OK) | exact Dnil]; assumption.
+      1-2: eapply nan_iff; [apply (stdev_b_spec xs s OK) | apply (stdev_b_spec xs s OK) | exact Dnil]; assumption.
+      1-2: eapply nan_iff; [apply (variance_u_spec xs s OK) | intros; apply (variance_u_spec xs s OK); lia | exact D2]; assumption.
+      1-2: eapply nan_iff; [apply (stdev_u_spec xs s OK) | intros; apply (stdev_u_spec xs s OK); lia | exact D2]; assumption.
+      1-2: eapply nan_iff; [apply (skewness_undefined xs s OK true)
+                           | intros N; apply tff_not in N; apply (skewness_b_defined xs s OK); tauto | apply (tff_dec 2)]; assumption.
+      1-2: eapply nan_iff; [apply (skewness_undefined xs s OK false)
+                           | intros N; apply tff_not in N; apply (skewness_u_defined xs s OK); tauto | apply (tff_dec 3)]; assumption.
+      1-2: eapply nan_iff; [apply (kurtosis_undefined xs s OK true)
+                           | intros N; apply tff_not in N; apply (kurtosis_b_defined xs s OK); tauto | apply (tff_dec 3)]; assumption.
+      1-2: eapply nan_iff; [apply (excess_kurtosis_undefined xs s OK true)
+                           | intros N; apply tff_not in N; apply (excess_kurtosis_b_defined xs s OK); tauto | apply (tff_dec 3)]; assumption.
+      1-2: eapply nan_iff; [apply (kurtosis_undefined xs s OK false)
+                           | intros N; apply tff_not in N; apply (kurtosis_u_defined xs s OK); tauto | apply (tff_dec 4)]; assumption.
+      1-2: eapply nan_iff; [apply (excess_kurtosis_undefined xs s OK false)
+                           | intros N; apply tff_not in N; apply (excess_kurtosis_u_defined xs s OK); tauto | apply (tff_dec 4)]; assumption.
+      - intros E. destruct D2 as [L | L]; [exact L | exfalso].
+        assert (H2 : (2 <= length xs)%nat) by lia.
+        destruct (ci_defined xs s OK icdf icdf_total a H H0 H2) as [mn [mx [_ [_ [_ [_ [Z P]]]]]]].
+        destruct (Qlt_le_dec 0 a) as [Pa | Za].
+        + destruct (P Pa) as [z [lo [hi [_ [E2 _]]]]]. rewrite E2 in E. discriminate.
+        + assert (a == 0) by lra. rewrite (Z H1) in E. discriminate.
+      - intros L. apply (ci_undefined xs s OK icdf a H H0 L).
+    Qed.
+
+    (* every query is total: a value or NaN, never an exception *)
+    Theorem getters_total :
+      no_raise (g_mean NQ s) /\
+      (forall b, no_raise (g_variance NQ b s)) /\
+      (forall b, no_raise (g_stdev NQ b s)) /\
+      (forall b, no_raise (g_skewness NQ b s)) /\
+      (forall b, no_raise (g_kurtosis NQ b s)) /\
+      (forall b, no_raise (g_excess_kurtosis NQ b s)) /\
+      (forall a : Q, 0 <= a -> a <= 1 -> no_raise (g_confidence_interval NQ icdf s (@ANum NQ a))).
+    Proof.
+      assert (Dnil : {xs = []} + {xs <> []}) by (destruct xs; [left; reflexivity | right; discriminate]).
+      assert (D2 : {(length xs < 2)%nat} + {~ (length xs < 2)%nat}) by apply lt_dec.
+      repeat split.
+      - destruct Dnil as [E | E]; [apply nan_no_raise | eapply res_is_no_raise]; apply (mean_spec xs s OK); exact E.
+      - intros [|].
+        + destruct Dnil as [E | E]; [apply nan_no_raise | eapply res_is_no_raise]; apply (variance_b_spec xs s OK); exact E.
+        + destruct D2 as [E | E]; [apply nan_no_raise | eapply res_is_no_raise]; apply (variance_u_spec xs s OK); lia.
+      - intros [|].
+        + destruct Dnil as [E | E]; [apply nan_no_raise | eapply res_is_no_raise]; apply (stdev_b_spec xs s OK); exact E.
+        + destruct D2 as [E | E]; [apply nan_no_raise | eapply res_is_no_raise]; apply (stdev_u_spec xs s OK); lia.
+      - intros [|].
+        + destruct (tff_dec 2) as [E | E]; [apply nan_no_raise; apply (skewness_undefined xs s OK true E) |].
+          apply tff_not in E. eapply res_is_no_raise. apply (skewness_b_defined xs s OK); tauto.
+        + destruct (tff_dec 3) as [E | E]; [apply nan_no_raise; apply (skewness_undefined xs s OK false E) |].
+          apply tff_not in E. eapply res_is_no_raise. apply (skewness_u_defined xs s OK); tauto.
+      - intros [|].
+        + destruct (tff_dec 3) as [E | E]; [apply nan_no_raise; apply (kurtosis_undefined xs s OK true E) |].
+          apply tff_not in E. eapply res_is_no_raise. apply (kurtosis_b_defined xs s OK); tauto.
+        + destruct (tff_dec 4) as [E | E]; [apply nan_no_raise; apply (kurtosis_undefined xs s OK false E) |].
+          apply tff_not in E. eapply res_is_no_raise. apply (kurtosis_u_defined xs s OK); tauto.
+      - intros [|].
+        + destruct (tff_dec 3) as [E | E]; [apply nan_no_raise; apply (excess_kurtosis_undefined xs s OK true E) |].
+          apply tff_not in E. eapply res_is_no_raise. apply (excess_kurtosis_b_defined xs s OK); tauto.
+        + destruct (tff_dec 4) as [E | E]; [apply nan_no_raise; apply (excess_kurtosis_undefined xs s OK false E) |].
+          apply tff_not in E. eapply res_is_no_raise. apply (excess_kurtosis_u_defined xs s OK); tauto.
+      - intros a A B. destruct D2 as [L | L]; [apply nan_no_raise; apply (ci_undefined xs s OK icdf a A B L) |].
+        assert (H2 : (2 <= length xs)%nat) by lia.
+        destruct (ci_defined xs s OK icdf icdf_total a A B H2) as [mn [mx [_ [_ [_ [_ [Z P]]]]]]].
+        destruct (Qlt_le_dec 0 a) as [Pa | Za].
+        + destruct (P Pa) as [z [lo [hi [_ [E2 _]]]]]. rewrite E2. intros k. discriminate.
+        + assert (a == 0) by lra. rewrite (Z H). intros k. discriminate.
+    Qed.
+
+    (* invalid alpha is refused as documented *)
+    Theorem confidence_interval_invalid_alpha :
+      g_confidence_interval NQ icdf s (@ANotFloat NQ) = Raise TypeError /\
+      (forall a : Q, ~ (0 <= a /\ a <= 1) -> g_confidence_interval NQ icdf s (@ANum NQ a) = Raise ValueError).
+    Proof. split; [reflexivity | apply (ci_alpha_out_of_range xs s icdf)]. Qed.
+  End History.
 End TallyQ.
